@@ -6,20 +6,36 @@
 (* of every stream, the ideal observation recomputed by the harness (encoding_rs *)
 (* on the logical document) and what calamine::Xls returned, in the vocabulary   *)
 (* of Biff5.tla.  Accepted iff every observation is the one the reader model     *)
-(* computes from the logged bytes -- or the ideal one (so that a repaired        *)
-(* implementation is still a behaviour of the specification).                    *)
+(* computes from the logged bytes -- or the ideal one, or a leaf-by-leaf mix of   *)
+(* the two (so that a wholly or partly repaired implementation is still a        *)
+(* behaviour of the specification).                                              *)
 EXTENDS Biff5, Json, IOUtils
 
 Rec == ndJsonDeserialize(IOEnv.TRACE)
+RI(R) == INSTANCE Biff5 WITH Rep <- R
 
 VARIABLES l, nideal
 vars == <<l, nideal>>
 Init == l = 1 /\ nideal = 0
 Ev == Rec[l]
 
+\* A reader in which some of the listed deviations are repaired and others are not is explained leaf by
+\* leaf: every sheet name, cell position, cell value and defined name is the as-is model's or the ideal one
+Leaf(o, a, i) == o = a \/ o = i
+MixSeq(o, a, i, P(_, _, _)) == Len(o) = Len(a) /\ Len(o) = Len(i) /\ \A k \in 1..Len(o) : P(o[k], a[k], i[k])
+MixCell(o, a, i) == Leaf(o, a, i) \/ (Leaf(o[1], a[1], i[1]) /\ Leaf(o[2], a[2], i[2]) /\ Leaf(o[3], a[3], i[3]))
+MixSheet(o, a, i) == Leaf(o.name, a.name, i.name) /\ (Leaf(o.cells, a.cells, i.cells) \/ MixSeq(o.cells, a.cells, i.cells, MixCell))
+MixObs(o, a, i) == \/ Leaf(o, a, i)
+                   \/ /\ Leaf(o.err, a.err, i.err)
+                      /\ (Leaf(o.defs, a.defs, i.defs) \/ MixSeq(o.defs, a.defs, i.defs, Leaf))
+                      /\ (Leaf(o.sheets, a.sheets, i.sheets) \/ MixSeq(o.sheets, a.sheets, i.sheets, MixSheet))
+
 TBook == /\ l <= Len(Rec) /\ Ev.e = "book"
-         /\ LET asis == TLCEval(Read(Ev.files).obs)
-            IN Ev.obs = asis \/ Ev.obs = Ev.ideal
+         \* (bound by a quantifier, not by LET: a LET definition is re-evaluated at every use)
+         \* (... = TRUE: evaluated as an expression; as part of the action every disjunction inside would
+         \* be a branch of the next-state relation and TLC would enumerate the combinations)
+         \* the reading of the model with some subset R of the named deviations repaired (R = {}: as it is)
+         /\ (\E R \in SUBSET DevNames : \E asis \in {RI(R)!Read(Ev.files).obs} : MixObs(Ev.obs, asis, Ev.ideal)) = TRUE
          /\ nideal' = nideal + (IF Ev.obs = Ev.ideal THEN 1 ELSE 0)
          /\ l' = l + 1
 Next == TBook
